@@ -60,10 +60,13 @@ impl<'a> Message<'a> {
             } else {
                 0
             };
-            let (rest, last_param) = if let Some((rest, lp)) = trimmed[start_pos..].split_once(':')
+            // last parameter (trailing) starts at first ':' that is preceded by whitespace.
+            // Other colons belong to parameters (or to source).
+            let tbytes = trimmed.as_bytes();
+            let (rest, last_param) = if let Some(p) = (start_pos.max(1)..tbytes.len())
+                .find(|i| tbytes[*i] == b':' && tbytes[*i - 1].is_ascii_whitespace())
             {
-                // get rest. add first character length to rest length.
-                (&trimmed[0..rest.len() + start_pos], Some(lp))
+                (&trimmed[0..p], Some(&trimmed[p + 1..]))
             } else {
                 (trimmed, None)
             };
